@@ -443,7 +443,7 @@ def modelStep (s : DState) (cmd : String) (t lhs rhs : Array String) (line : Str
       | none => s.diverge "cshape" "no such view" line
       | some b =>
         let a := int! (rhs[1]?.getD "0"); let l := int! (rhs[2]?.getD "0"); let k := int! (rhs[3]?.getD "0")
-        if a == 1 && l == b.length && k == b.capacity then s
+        if a == chanChannels b && l == chanLength b && k == chanCapacity b then s
         else s.diverge s!"cshape {vid}" s!"1 {b.length} {b.capacity}" s!"{a} {l} {k}"
     else if cmd == "write" then
       let vid := int! (lhs[1]?.getD "0")
